@@ -100,4 +100,6 @@ func (m *defaultVarMocker) doSet(value interface{}) {
 	d := reflect.ValueOf(value)
 	target.Set(d)
 	m.mockValue = value
+	// 重新设置之后 mocker 不再处于取消状态
+	m.canceled = false
 }
